@@ -142,6 +142,10 @@ class Session:
                 os._exit(127)
         self.pid = pid
         self.slave = slave        # kept open: the terminal stays "connected" after the child exits
+        try:
+            self.slave_name = os.ttyname(slave)
+        except OSError:
+            self.slave_name = ""
         os.close(obs_w)
         os.close(ctl_r)
         os.set_blocking(self.master, False)
@@ -221,7 +225,13 @@ class Session:
             sc = _syscall(self.pid)
             blocked = st == "S" and sc and sc[0] in BLOCKING_SYSCALLS and _infinite_wait(sc)
             if blocked and sc[0] == "0" and len(sc) > 1 and sc[1] not in ("0x0",):
-                blocked = False     # a read on something else than the tty
+                # a read on something else than standard input: still the terminal when the editor opened it itself (PreferTerm)
+                try:
+                    link = os.readlink("/proc/%d/fd/%d" % (self.pid, int(sc[1], 16)))
+                except (OSError, ValueError):
+                    link = ""
+                if link not in (self.slave_name, "/dev/tty"):
+                    blocked = False
             if blocked:
                 # input written to the terminal but not yet read by the child
                 try:
@@ -448,6 +458,12 @@ def _run_case(s, chunks, rows, probe, events, between_reads, sync_keys):
             elif ev[0] == "print":
                 statuses.append(s.tell_printer(ev[1], ev[2], wait=True))
             elif ev[0] == "print_nowait":
+                statuses.append(s.tell_printer(ev[1], ev[2], wait=False))
+            elif ev[0] == "print_with_keys":
+                # keys typed ahead and a message handed over at the same moment (the child's key handling is slow: `key_delay_ms`),
+                # so that the terminal and the printer's wake-up are ready for one and the same wait
+                os.write(s.master, ev[3])
+                s.sent += len(ev[3])
                 statuses.append(s.tell_printer(ev[1], ev[2], wait=False))
             elif ev[0] == "winch_blocked":
                 # a resize while NOTHING is read from the terminal: the child is (or soon will be) blocked writing a message
